@@ -41,7 +41,24 @@ def render : Tree → String
 def errName : Err → String
   | .typeError => "TypeError" | .overflowError => "OverflowError" | .inferenceError => "InferenceError"
 
+partial def parseScoped (j : Json) : Except String Scoped :=
+  match j with
+  | .str "p" => pure .probe
+  | .arr #[.str "b", .arr #[tp, cp], .arr body] => do
+      let tp ← fromJson? (α := Bool) tp
+      let cp ← fromJson? (α := Bool) cp
+      let body ← body.toList.mapM parseScoped
+      pure (.block (tp, cp) body)
+  | _ => throw "bad scoped program"
+
+def settingsJ : Option (Bool × Bool) → Json
+  | none => Json.null
+  | some (tp, cp) => Json.arr #[toJson tp, toJson cp]
+
 def handleE (req : Json) : Except String Json := do
+  if let .ok (.arr prog) := req.getObjVal? "scoped" then
+    let nodes ← prog.toList.mapM parseScoped
+    return Json.mkObj [("probes", Json.arr ((probesList none nodes).map settingsJ).toArray)]
   let settings : Option (Bool × Bool) ←
     match req.getObjVal? "settings" with
     | .ok (.arr #[tp, cp]) => do pure (some (← fromJson? (α := Bool) tp, ← fromJson? (α := Bool) cp))
